@@ -258,7 +258,31 @@ class C18(Prop):
             errs = {i for i in range(30, n) if rng.random() < dens}
             lines.append("prbs " + " ".join(map(str, scenario([], p, n, errs))))
             meta.append(("dense%.3f" % dens, "fresh", p, n, errs, None))
+        # histories with a prior unlock: burst -> unlock, clean bits -> re-lock (no reset()), then sparse errors. Two requests per case, without (A)
+        # and with (B) the sparse tail: B must still be locked and have counted exactly the tail's errors and bits on top of A.
+        relock = []
+        for _ in range(12 if quick else 200):
+            p = rng.randrange(511)
+            nclean = rng.choice([40, 60, 90])
+            ntail = rng.choice([300, 640, 1000])
+            step = rng.choice([30, 64, 100])
+            tail_errs = {nclean + j for j in range(rng.randrange(1, step), ntail, step)}
+            a_ln = "prbs " + " ".join(map(str, scenario(priors["after-unlock"], p, nclean, set())))
+            b_ln = "prbs " + " ".join(map(str, scenario(priors["after-unlock"], p, nclean + ntail, tail_errs)))
+            relock.append((len(lines), len(lines) + 1, len(tail_errs), ntail))
+            lines += [a_ln, b_ln]
+            meta += [("relock-A", "after-unlock", p, nclean, set(), None), ("relock-B", "after-unlock", p, nclean + ntail, tail_errs, None)]
         impl = ctx.run_impl(exe, lines, "prbs")
+        for ia, ib, ke, nt in relock:
+            fa, fb = impl[ia].split(), impl[ib].split()
+            if len(fa) != 8 or len(fb) != 8:
+                continue
+            ctx.evaluations += 1
+            if int(fa[0]) != 1:
+                continue            # not re-locked within the clean run: outside this oracle (lock timing is the lock scenarios' business)
+            if int(fb[0]) != 1 or int(fb[1]) - int(fa[1]) != ke or int(fb[2]) - int(fa[2]) != nt:
+                ctx.violate("prbs:relock-count", f"after unlock and re-lock (no reset), {ke} sparse errors over {nt} bits: sync={fb[0]} errors +{int(fb[1]) - int(fa[1])} bits +{int(fb[2]) - int(fa[2])} "
+                            f"(expected locked, +{ke}, +{nt})", {"stream": "prbs", "ops": [lines[ia], lines[ib]], "impl": [impl[ia], impl[ib]]})
         # independent oracle for error-free phases (lock within 27) and sparse errors (exact counts)
         for ln, a, (k, prior, p, n, errs, reg) in zip(lines, impl, meta):
             ctx.count(ln, nontrivial=True)
